@@ -204,7 +204,7 @@ theorem step_InvO {a : ACfg} {P : AObs → Prop} (hpl : ∀ o, plainObs o = true
           obtain rfl := allowed2_D2 hty (Or.inr (Or.inr (Or.inr (Or.inr ⟨v, rfl⟩))))
           exact InvO.of_trace2 (trace2_finish2 _ _) ((i0.emit2 (hB (is0.cc v hp hal) v)).emit2 (hpl _ rfl))
         · rename_i u hp
-          have i1 : InvO P { s0 with vres2 := none, rcv2Busy := false, gone2 := s0.gone2 ++ s0.vres2.toList.map (fun v => (v, false)) } := InvO.of_trace2 (s := s0) rfl i0
+          have i1 : InvO P { s0 with vres2 := none, rcv2Busy := false, q2 := s0.vres2.toList ++ s0.q2 } := InvO.of_trace2 (s := s0) rfl i0
           split
           · exact InvO.of_trace2 (trace2_finish2 _ _) (i1.emit2 (hpl _ rfl))
           · exact InvO.of_trace2 (trace2_finish2 _ _) (i1.emit2 (hpl _ rfl))
